@@ -117,4 +117,167 @@ theorem decodeCond_bounded (dk : Bytes → Option (Key × Bytes)) :
           obtain ⟨⟨a, b⟩, _, hh⟩ := h; cases hh; simp [Cond.depth, Cond.widthOk]
         · cases h
 
+theorem depthList_le_iff (cs : List Cond) (d : Nat) : depthList cs ≤ d ↔ ∀ c ∈ cs, c.depth ≤ d := by
+  induction cs with
+  | nil => simp [depthList]
+  | cons c cs ih => simp [depthList, Nat.max_le, ih]
+
+theorem widthOkList_iff (cs : List Cond) : widthOkList cs = true ↔ ∀ c ∈ cs, c.widthOk = true := by
+  induction cs with
+  | nil => simp [widthOkList]
+  | cons c cs ih => simp [widthOkList, ih]
+
+theorem depth_pos : ∀ c : Cond, 1 ≤ c.depth
+  | .boolean _ => by simp [Cond.depth]
+  | .not c => by simp [Cond.depth]
+  | .and cs => by simp [Cond.depth]
+  | .or cs => by simp [Cond.depth]
+  | .scriptHash _ => by simp [Cond.depth]
+  | .group _ => by simp [Cond.depth]
+  | .calledByEntry => by simp [Cond.depth]
+  | .calledByContract _ => by simp [Cond.depth]
+  | .calledByGroup _ => by simp [Cond.depth]
+
+mutual
+theorem admit_iff : ∀ (c : Cond) (d : Nat), admit c d = true ↔ (c.depth ≤ d ∧ c.widthOk = true)
+  | c, 0 => by
+      have := depth_pos c
+      cases c <;> simp [admit] <;> omega
+  | .not c, d+1 => by simp [admit, Cond.depth, Cond.widthOk, admit_iff c d]
+  | .and cs, d+1 => by
+      simp only [admit, Cond.depth, Cond.widthOk, Bool.and_eq_true, admitAll_iff cs d]
+      constructor
+      · rintro ⟨hl, hd, hw⟩; exact ⟨by omega, hl, hw⟩
+      · rintro ⟨hd, hl, hw⟩; exact ⟨hl, by omega, hw⟩
+  | .or cs, d+1 => by
+      simp only [admit, Cond.depth, Cond.widthOk, Bool.and_eq_true, admitAll_iff cs d]
+      constructor
+      · rintro ⟨hl, hd, hw⟩; exact ⟨by omega, hl, hw⟩
+      · rintro ⟨hd, hl, hw⟩; exact ⟨hl, by omega, hw⟩
+  | .boolean _, d+1 => by simp [admit, Cond.depth, Cond.widthOk]
+  | .scriptHash _, d+1 => by simp [admit, Cond.depth, Cond.widthOk]
+  | .group _, d+1 => by simp [admit, Cond.depth, Cond.widthOk]
+  | .calledByEntry, d+1 => by simp [admit, Cond.depth, Cond.widthOk]
+  | .calledByContract _, d+1 => by simp [admit, Cond.depth, Cond.widthOk]
+  | .calledByGroup _, d+1 => by simp [admit, Cond.depth, Cond.widthOk]
+theorem admitAll_iff : ∀ (cs : List Cond) (d : Nat), admitAll cs d = true ↔ (depthList cs ≤ d ∧ widthOkList cs = true)
+  | [], d => by simp [admitAll, depthList, widthOkList]
+  | c :: cs, d => by
+      simp only [admitAll, depthList, widthOkList, Bool.and_eq_true, admit_iff c d, admitAll_iff cs d, Nat.max_le]
+      constructor
+      · rintro ⟨⟨a, b⟩, c', d'⟩; exact ⟨⟨a, c'⟩, b, d'⟩
+      · rintro ⟨⟨a, c'⟩, b, d'⟩; exact ⟨⟨a, b⟩, c', d'⟩
+end
+
+/-! ### Signer decoder -/
+
+theorem decodeMany_spec {α : Type} (dec : Bytes → Option (α × Bytes)) (P : α → Prop)
+    (hdec : ∀ bs x r, dec bs = some (x, r) → P x) :
+    ∀ (n : Nat) (bs : Bytes) (xs : List α) (r : Bytes), decodeMany dec n bs = some (xs, r) →
+      xs.length = n ∧ ∀ x ∈ xs, P x
+  | 0, bs, xs, r, h => by simp [decodeMany] at h; simp [h.1]
+  | n+1, bs, xs, r, h => by
+      simp only [decodeMany] at h
+      split at h
+      · cases h
+      · rename_i x r1 hx
+        split at h
+        · cases h
+        · rename_i xs' r' hn
+          have ih := decodeMany_spec dec P hdec n r1 xs' r' hn
+          cases h
+          refine ⟨by simp [ih.1], ?_⟩
+          intro y hy
+          cases hy with
+          | head => exact hdec _ _ _ hx
+          | tail _ hy => exact ih.2 y hy
+
+theorem readArrayMax_spec {α : Type} (dec : Bytes → Option (α × Bytes)) (P : α → Prop)
+    (hdec : ∀ bs x r, dec bs = some (x, r) → P x) (max : Nat) {bs : Bytes} {xs : List α} {r : Bytes}
+    (h : readArrayMax dec max bs = some (xs, r)) : xs.length ≤ max ∧ ∀ x ∈ xs, P x := by
+  unfold readArrayMax at h
+  split at h
+  · cases h
+  · rename_i l r1 hl
+    split at h
+    · cases h
+    · rename_i hm
+      have := decodeMany_spec dec P hdec l r1 xs r h
+      exact ⟨by omega, this.2⟩
+
+/-- a rule as the wire format admits it. -/
+def Rule.wellFormed (r : Rule) : Prop :=
+  (r.action = 0 ∨ r.action = actAllow) ∧ r.cond.depth ≤ maxConditionNesting ∧ r.cond.widthOk = true
+
+theorem decodeRule_spec (dk : Bytes → Option (Key × Bytes)) (bs : Bytes) (x : Rule) (r : Bytes)
+    (h : decodeRule dk bs = some (x, r)) : x.wellFormed := by
+  unfold decodeRule at h
+  split at h
+  · cases h
+  · rename_i a rest
+    split at h
+    · cases h
+    · rename_i ha
+      split at h
+      · cases h
+      · rename_i c r' hc
+        cases h
+        have hb := decodeCond_bounded dk maxConditionNesting _ _ _ hc
+        refine ⟨?_, hb.1, hb.2⟩
+        simp at ha
+        simp only
+        by_cases h0 : a.toNat = 0
+        · exact Or.inl h0
+        · exact Or.inr (ha h0)
+
+/-- what `Signer.DecodeBinary` guarantees about an accepted signer. -/
+def Signer.wellFormed (s : Signer) : Prop :=
+  validScopes s.scopes = true ∧
+  s.allowedContracts.length ≤ maxSubitems ∧ s.allowedGroups.length ≤ maxSubitems ∧ s.rules.length ≤ maxSubitems ∧
+  (∀ r ∈ s.rules, r.wellFormed) ∧
+  (hasScope s.scopes scCustomContracts = false → s.allowedContracts = []) ∧
+  (hasScope s.scopes scCustomGroups = false → s.allowedGroups = []) ∧
+  (hasScope s.scopes scRules = false → s.rules = [])
+
+theorem decodeSigner_spec (dk : Bytes → Option (Key × Bytes)) (bs : Bytes) (s : Signer) (r : Bytes)
+    (h : decodeSigner dk bs = some (s, r)) : s.wellFormed := by
+  unfold decodeSigner at h
+  split at h
+  · cases h
+  · rename_i acc r0 _
+    split at h
+    · cases h
+    · rename_i sb r1 _
+      simp only at h
+      split at h
+      · cases h
+      · rename_i hv
+        split at h
+        · cases h
+        · rename_i cs r2 hcs
+          split at h
+          · cases h
+          · rename_i gs r3 hgs
+            split at h
+            · cases h
+            · rename_i rs r4 hrs
+              cases h
+              have hv' : validScopes sb.toNat = true := by simpa using hv
+              refine ⟨hv', ?_, ?_, ?_, ?_, ?_, ?_, ?_⟩
+              · split at hcs
+                · exact (readArrayMax_spec readHash (fun _ => True) (by simp) _ hcs).1
+                · cases hcs; simp
+              · split at hgs
+                · exact (readArrayMax_spec dk (fun _ => True) (by simp) _ hgs).1
+                · cases hgs; simp
+              · split at hrs
+                · exact (readArrayMax_spec (decodeRule dk) (fun _ => True) (by simp) _ hrs).1
+                · cases hrs; simp
+              · split at hrs
+                · exact (readArrayMax_spec (decodeRule dk) Rule.wellFormed (decodeRule_spec dk) _ hrs).2
+                · cases hrs; simp
+              · intro hb; simp only [hb] at hcs; cases hcs; rfl
+              · intro hb; simp only [hb] at hgs; cases hgs; rfl
+              · intro hb; simp only [hb] at hrs; cases hrs; rfl
+
 end NeoModel.Witness
